@@ -135,6 +135,13 @@ class Refactoring:
         """
         Applies the whole refactoring to the files, which includes renames.
         """
+        if None in self._file_to_node_changes:
+            # Refuse before anything is written: the other files must not be
+            # changed when the code of the Script has no file to go to.
+            raise RefactoringError(
+                'Cannot apply a refactoring on a Script with path=None'
+            )
+
         for f in self.get_changed_files().values():
             f.apply()
 
